@@ -131,7 +131,15 @@ def composites():
         D.make('HvLane', 'narrow', a4, D.wire('r2', 4), False, rel=CASES_REL)
         D.make('HvLane', 'wide', a8, D.wire('r3', 8), True, rel=CASES_REL)
         return None
-    return [('user classes without structureName', user_classes), ('same-named children, different structure', same_inner), ('Reg x5 (shared names)', regs), ('Add x5 (shared names)', adds), ('Abs/Neg/Sign', abss), ('BufEnable/Latch/Comparator', misc),
+    def params(first, pname):
+        def f(D):
+            from .c02 import CASES_REL
+            D.make('HvParamPair', 'pair', D.wire('a', 8), D.wire('load'), D.wire('r', 8), pname, 7, first, rel=CASES_REL)
+            return None
+        return f
+    return [('parameter pass-through (first instance, own name)', params(True, 'START')), ('parameter pass-through (first instance, same name)', params(True, 'INIT')),
+            ('parameter pass-through (second instance)', params(False, 'START')),
+            ('user classes without structureName', user_classes), ('same-named children, different structure', same_inner), ('Reg x5 (shared names)', regs), ('Add x5 (shared names)', adds), ('Abs/Neg/Sign', abss), ('BufEnable/Latch/Comparator', misc),
             ('inner wire named like an outer wire', shadow), ('second clock domain', two_domains), ('nested + fan-out', nested)]
 
 
